@@ -246,6 +246,8 @@ def check(ctx):
               where(repo, fl), finit_.qualname, 'SERIALIZERS.get(field.type, default_serializer)',
               'the serializer is not looked up in the class table by the field\'s own type')
 
+    from rules import independence
+    independence.r28_functions(ctx, [('dataflows.processors.dumpers.formats.base:FileFormat.__init__', {})])
     run.rule('R16o', 'COLUMN-ORDER: a format that writes each row as a JSON object is read back column-wise in sorted key order '
                      '(LF2) and paired by position with the stamped schema, so it must stamp the fields in sorted order, write '
                      'arrays, or otherwise normalise the order')
